@@ -74,7 +74,9 @@ func (m *Message) encodeDataSet(b *bytes.Buffer) error {
 			b.WriteString("{\"I\":")
 			b.WriteString(strconv.FormatInt(int64(m.DataSets[i][j].ID), 10))
 			b.WriteString(",\"V\":")
-			err = m.writeValue(b, i, j)
+			if err = m.writeValue(b, i, j); err != nil {
+				return err
+			}
 
 			if m.DataSets[i][j].EnterpriseNo != 0 {
 				b.WriteString(",\"E\":")
